@@ -424,7 +424,10 @@ def weave(src, vspecs, vacuity=False, split=None, isolate=()):
         if fnid in isolate:
             # a proof anchor of this function was lost and the remaining proof text did not compile: keep the contract,
             # leave the body out of this run (the function is reported as not verified -> undecided, never as an alarm)
-            edits.append(Edit(kw, '#[verifier::external_body] /*@@ISOLATED*/ ', -2))
+            ls = src.rfind('\n', 0, kw) + 1
+            while src[ls] in ' \t':
+                ls += 1
+            edits.append(Edit(ls, '#[verifier::external_body] /*@@ISOLATED*/ ', -2))
             isolated.append(fnid)
             continue
         if vacuity and 'external_body' not in (e.get('attr') or ''):
